@@ -3,7 +3,8 @@
    compares identifiers, type, series, code, dates and the preceding reference, which Calculate
    leaves alone on normalised input - the premise calc_keeps_header of the theorems), digest := unit.
 
-   c16 correct <regime> <addons> xtoday xu_head xu_doc <opts> <state> <envelope>
+   c16 correct <regime> <addons> xtoday xu_head xu_doc <opts> <state> <envelope> <copy_head 0|1>
+       (copy_head: 0 = the code as it stands, 1 = after fixes/C16-copy-header-stamps.diff)
    c16 replicate xtoday xu_head xu_doc <state> <envelope>
      regime   = ( ) | ( ( def ... ) )          addons = ( ( def ... ) ... )
      def      = ( xschema ( xtype ... ) ( xext ... ) <reason 0|1> ( xstamp ... ) <copytax 0|1> )
@@ -140,7 +141,7 @@ Definition run_c16 (args : list V) : list V :=
       let src := env_in (g 7%nat) in
       let st := state_in (g 6%nat) in
       let src_stamps := fun h => VL (map (stamp_out h) (e_stamps src)) in
-      match env_correct calc_id (fun _ => tt) (option_map defs_in (vopt (g 0%nat))) (map defs_in (vl (g 1%nat)))
+      match env_correct calc_id (fun _ => tt) (vbool (g 8%nat)) (option_map defs_in (vopt (g 0%nat))) (map defs_in (vl (g 1%nat)))
                         (vs_ (g 2%nat)) (vs_ (g 3%nat)) (vs_ (g 4%nat)) (map opt_in (vl (g 5%nat))) st src with
       | (st', Ok e') => [VS (bs "ok"); env_out (st_heap st') e'; src_stamps (st_heap st'); shared src e']
       | (st', Err x) => [refusal_out x; src_stamps (st_heap st')]
